@@ -42,20 +42,22 @@ def mesh2():
 
 REF3 = None
 REF3B = None
+REF3C = None
 REF2 = None
 CHK = None
 
 
 def refs():
-    global REF3, REF3B, REF2, CHK
+    global REF3, REF3B, REF3C, REF2, CHK
     if REF3 is None:
         m3, m2 = mesh3(), mesh2()
         lay = [[(0, 1), (0, 0)], [(0, 0)]]
         REF3 = Ref('p', 3, ['density', 'a', 'temp'], m3.ncell0, m3.boxes, layout=lay, lo=[-0.5, 1.25, 2.0], dx0=[0.5, 0.25, 0.125])
         REF3B = Ref('q', 3, ['b'], m3.ncell0, m3.boxes, lo=[-0.5, 1.25, 2.0], dx0=[0.5, 0.25, 0.125])
+        REF3C = Ref('s', 3, ['c'], m3.ncell0, m3.boxes, layout=lay, lo=[-0.5, 1.25, 2.0], dx0=[0.5, 0.25, 0.125])
         REF2 = Ref('r', 2, ['density', 'temp'], m2.ncell0, m2.boxes, lo=[0.0, 1.0], dx0=[0.25, 0.5])
         CHK = RefChk('c', (2, 2, 2), [tile((0, 0, 0), (1, 1, 1), [[], [], []])], nsp=2, ghost=1)
-    return REF3, REF3B, REF2, CHK
+    return REF3, REF3B, REF2, CHK, REF3C
 
 
 def argv_call(mod_name, argv):
@@ -71,7 +73,7 @@ def argv_call(mod_name, argv):
 
 def invocations(form):
     """form: dict(cwd, root (directory holding the inputs, absolute), spell(path) -> how the input is named)."""
-    ref3, ref3b, ref2, chk = refs()
+    ref3, ref3b, ref2, chk, ref3c = refs()
     root = form['root']
     sp = form['spell']
     I = []
@@ -88,6 +90,9 @@ def invocations(form):
     # ---- combine, explicit and default output
     inv('combine', [p3, p3b], lambda m: m['amr_kitchen.combine.combine'].combine(m['amr_kitchen.plotfile_cooker'].PlotfileCooker(sp(p3)),
         m['amr_kitchen.plotfile_cooker'].PlotfileCooker(sp(p3b)), pltout=out), [out])
+    p3c = posixpath.join(root, 'plt00030')
+    inv('combine-byfile', [p3, p3c], lambda m: m['amr_kitchen.combine.combine'].combine(m['amr_kitchen.plotfile_cooker'].PlotfileCooker(sp(p3)),
+        m['amr_kitchen.plotfile_cooker'].PlotfileCooker(sp(p3c)), pltout=out), [out])
     inv('combine-default', [p3, p3b], lambda m: m['amr_kitchen.combine.combine'].combine(m['amr_kitchen.plotfile_cooker'].PlotfileCooker(sp(p3)),
         m['amr_kitchen.plotfile_cooker'].PlotfileCooker(sp(p3b))), [posixpath.join(form['cwd'], 'plt00010plt00020')])
     # ---- chef (user recipe), explicit and default
@@ -158,13 +163,14 @@ def allowed_write(p, a):
 
 
 def run_inv(mods, form, inv, ctx, with_fault=True, canary=False):
-    ref3, ref3b, ref2, chk = refs()
+    ref3, ref3b, ref2, chk, ref3c = refs()
     fs = SymFS(cwd='/')
     fs.mkdirs('/scratch', audit=False)
     fs.mkdirs(form['cwd'], audit=False)
     root = form['root']
     ref3.write_symfs(fs, posixpath.join(root, 'plt00010'))
     ref3b.write_symfs(fs, posixpath.join(root, 'plt00020'))
+    ref3c.write_symfs(fs, posixpath.join(root, 'plt00030'))
     ref2.write_symfs(fs, posixpath.join(root, 'plt2d'))
     chk.write_symfs(fs, posixpath.join(root, 'chk00005'))
     chk.write_symfs(fs, posixpath.join(root, 'restart7'))
@@ -191,6 +197,7 @@ def run_inv(mods, form, inv, ctx, with_fault=True, canary=False):
             outcome = 'raised'
             err = e
     what = '%s' % inv['name']
+    ctx.data['fault_site'] = getattr(fs, 'fault_site', None)
     # 1, 3: where did it write
     for op, p in fs.audit:
         if any(inside(p, t) for t in inv['inputs']) and not canary:
@@ -246,7 +253,8 @@ def run_case(case):
                         k = m.eval(z3.Int('K_fault'), model_completion=True).as_long()
                     except Exception:
                         k = None
-                viol[sig] = {'signature': sig, 'what': msg[:300], 'form': case['form'], 'index': case['index'], 'fault': k if 'yet the tool' in msg and inv['fail'] is None else None}
+                viol[sig] = {'signature': sig, 'what': msg[:300], 'form': case['form'], 'index': case['index'],
+                             'fault': ctx.data.get('fault_site') if 'yet the tool' in msg and inv['fail'] is None else None}
 
     def canary(ctx):
         return run_inv(mods, form, inv, ctx, with_fault=False, canary=True)[0]
@@ -282,7 +290,7 @@ def make_replay_(v):
     repository code NOT rebound) executes the same invocation and audits the sandbox before / after."""
     import json
     from model import plotfile
-    ref3, ref3b, ref2, chk = refs()
+    ref3, ref3b, ref2, chk, ref3c = refs()
     d = common.replay_dir('C13', v['signature'])
     val = common.Valuation()
     fs = SymFS(cwd='/')
@@ -290,6 +298,7 @@ def make_replay_(v):
     root = form['root']
     ref3.write_symfs(fs, posixpath.join(root, 'plt00010'))
     ref3b.write_symfs(fs, posixpath.join(root, 'plt00020'))
+    ref3c.write_symfs(fs, posixpath.join(root, 'plt00030'))
     ref2.write_symfs(fs, posixpath.join(root, 'plt2d'))
     chk.write_symfs(fs, posixpath.join(root, 'chk00005'))
     chk.write_symfs(fs, posixpath.join(root, 'restart7'))
@@ -301,6 +310,72 @@ def make_replay_(v):
         f.write(os.path.join(common.VERIF, '.venv', 'bin', 'python'))
     common.write_replay_stub(d)
     return d
+
+
+def install_fault(site, sb):
+    """Real-side fault injection: the occ-th operation `op` on the sandbox path raises OSError.  builtins.open and
+    os.mkdir / os.makedirs are wrapped from the harness (the property's hook note); forked workers inherit it."""
+    import builtins
+    target = os.path.normpath(sb + site['path'])
+    op, occ = site['op'], site['occ']
+    real_open, real_mkdir, real_makedirs = builtins.open, os.mkdir, os.makedirs
+    counts = {'open': 0, 'write': 0, 'mkdir': 0}
+
+    class FaultFile:
+        def __init__(self, f):
+            object.__setattr__(self, '_f', f)
+
+        def write(self, b):
+            if op == 'write':
+                if counts['write'] == occ:
+                    counts['write'] += 1
+                    raise OSError(28, 'No space left on device (injected)', target)
+                counts['write'] += 1
+            return self._f.write(b)
+
+        def __getattr__(self, n):
+            return getattr(self._f, n)
+
+        def __enter__(self):
+            self._f.__enter__()
+            return self
+
+        def __exit__(self, *a):
+            return self._f.__exit__(*a)
+
+        def __iter__(self):
+            return iter(self._f)
+
+    def open_(file, mode='r', *a, **k):
+        try:
+            p = os.path.normpath(os.path.abspath(os.fspath(file))) if not isinstance(file, int) else None
+        except TypeError:
+            p = None
+        if p == target and any(c in mode for c in 'wax'):
+            if op.startswith('open') or op.startswith('np.') or op == 'savefig':
+                if counts['open'] == occ:
+                    counts['open'] += 1
+                    raise OSError(28, 'No space left on device (injected)', target)
+                counts['open'] += 1
+            return FaultFile(real_open(file, mode, *a, **k))
+        return real_open(file, mode, *a, **k)
+
+    def mkdir_(p, *a, **k):
+        if op == 'mkdir' and os.path.normpath(os.path.abspath(p)) == target:
+            raise OSError(28, 'No space left on device (injected)', target)
+        return real_mkdir(p, *a, **k)
+
+    def makedirs_(p, *a, **k):
+        if op == 'mkdir':
+            ap = os.path.normpath(os.path.abspath(p))
+            if (ap == target or ap.startswith(target + os.sep)) and not os.path.isdir(target):
+                raise OSError(28, 'No space left on device (injected)', target)
+        return real_makedirs(p, *a, **k)
+    builtins.open, os.mkdir, os.makedirs = open_, mkdir_, makedirs_
+
+    def restore():
+        builtins.open, os.mkdir, os.makedirs = real_open, real_mkdir, real_makedirs
+    return restore
 
 
 def real_tree(top):
@@ -342,6 +417,7 @@ def replay(d, case):
     before = real_tree(sb)
     os.chdir(form['cwd'])
     outcome = 'returned'
+    restore = install_fault(case.get('fault'), sb) if case.get('fault') else None
     with contextlib.redirect_stdout(io.StringIO()), contextlib.redirect_stderr(io.StringIO()):
         try:
             inv['call'](mods)
@@ -349,6 +425,8 @@ def replay(d, case):
             outcome = 'exit-nonzero' if e.code not in (None, 0) else 'exit-zero'
         except Exception as e:
             outcome = 'raised'
+    if restore:
+        restore()
     after = real_tree(sb)
     changed = [p for p in after if before.get(p) != after[p]] + [p for p in before if p not in after]
     for p in changed:
@@ -356,6 +434,9 @@ def replay(d, case):
             return True, 'created / modified inside the input tree: %s' % p[len(sb):]
         if not any(allowed_write(p, a) for a in inv['allowed']) and not inside(form['scratch'], p):
             return True, 'wrote outside the requested / documented output: %s' % p[len(sb):]
+    if case.get('fault') and outcome not in ('raised', 'exit-nonzero'):
+        return True, 'I/O error at %s #%d of %s, yet the tool %s' % (case['fault']['op'], case['fault']['occ'], case['fault']['path'],
+                                                                      'returned normally' if outcome == 'returned' else 'exited with status 0')
     if inv['fail'] is not None and outcome not in ('raised', 'exit-nonzero'):
         return True, '%s, yet the tool %s' % (inv['fail'], 'returned normally' if outcome == 'returned' else 'exited with status 0')
     return False, 'inputs untouched, outputs where they belong, outcome %s' % outcome
